@@ -487,6 +487,21 @@ impl<'de> serde::de::Visitor<'de> for RefLenientVisitor {
     fn expecting(&self, f: &mut std::fmt::Formatter) -> std::fmt::Result {
         f.write_str("a (hi, lo) record")
     }
+    // C20 lists overlap, non-finite, missing, duplicate and unknown as the must-reject cases; it
+    // does not say that a bare number must be refused. A conforming implementation may read a
+    // scalar as (x, 0).
+    fn visit_f64<E: serde::de::Error>(self, v: f64) -> Result<RefLenient, E> {
+        Ok(RefLenient { hi: v, lo: 0.0 })
+    }
+    fn visit_i64<E: serde::de::Error>(self, v: i64) -> Result<RefLenient, E> {
+        Ok(RefLenient { hi: v as f64, lo: 0.0 })
+    }
+    fn visit_u64<E: serde::de::Error>(self, v: u64) -> Result<RefLenient, E> {
+        Ok(RefLenient { hi: v as f64, lo: 0.0 })
+    }
+    fn visit_str<E: serde::de::Error>(self, v: &str) -> Result<RefLenient, E> {
+        v.trim().parse::<f64>().map(|x| RefLenient { hi: x, lo: 0.0 }).map_err(|_| E::custom("not a numeric string"))
+    }
     fn visit_seq<A: serde::de::SeqAccess<'de>>(self, mut seq: A) -> Result<RefLenient, A::Error> {
         use serde::de::Error;
         let hi: LenientF64 = seq.next_element()?.ok_or_else(|| A::Error::invalid_length(0, &self))?;
@@ -803,9 +818,12 @@ pub fn execute(c: &DeCase) -> LegReport {
             ));
         }
     }
-    // an I/O error that was actually returned to the visitor must surface
-    if out.fired && out.result.is_ok() {
-        rep.violations.push(viol("DE_SWALLOWED_IO_ERROR", "format reported an I/O error to the visitor, deserialize still returned Ok"));
+    // An I/O error on a call the model itself makes must surface (that is the
+    // `Expect::Err(Io)` arm below). An error on a call the model does not make — an
+    // optional probe for a third element — may be ignored by the visitor: only the
+    // safety clause applies then.
+    if out.fired && out.result.is_ok() && !matches!(expect, Expect::Err(Reason::Io)) {
+        rep.probes.hit("de_io_error_on_optional_call_ignored_by_visitor");
     }
     match (&expect, &out.result) {
         (Expect::Ok(h, l), Ok((gh, gl))) => {
@@ -840,6 +858,10 @@ pub fn execute(c: &DeCase) -> LegReport {
         // model does not make (an implementation may probe for a third element, or
         // read on after it has what it needs): failing with that error is legitimate.
         (Expect::Ok(..), Err(_)) if out.fired => rep.probes.hit("de_io_error_on_call_beyond_model_propagated"),
+        // serde documents size_hint as "the number of elements remaining, if known": a format
+        // that lies about it breaks its own contract, and a visitor that trusts the number for
+        // a length check is within its rights to refuse. Acceptance must still be faithful.
+        (Expect::Ok(..), Err(_)) if matches!(c.hint, Hint::Zero | Hint::Huge) => rep.probes.hit("de_rejected_under_lying_size_hint_tolerated"),
         (Expect::Ok(h, l), Err(e)) => rep.violations.push(viol(
             "RT_REJECTED_VALID",
             format!("intact valid record ({}, {}) rejected: {}", values::hex(*h), values::hex(*l), e.msg),
@@ -903,7 +925,11 @@ pub fn execute(c: &DeCase) -> LegReport {
             Err(msg) => rep.violations.push(viol("PANIC", format!("deserialize_in_place panicked: {msg}"))),
             Ok(r) => {
                 let pw = (place.hi().to_bits(), place.lo().to_bits());
-                if !ref_valid_bits(pw.0, pw.1) {
+                // serde allows the place to be partially modified when an error is returned
+                if r.is_err() && !ref_valid_bits(pw.0, pw.1) {
+                    rep.probes.hit("de_in_place_left_invalid_place_after_error");
+                }
+                if r.is_ok() && !ref_valid_bits(pw.0, pw.1) {
                     rep.violations.push(viol(
                         "DE_ACCEPTED_INVALID",
                         format!("deserialize_in_place left invalid words ({}, {}) in the place", values::hex(pw.0), values::hex(pw.1)),
